@@ -47,6 +47,7 @@ fn main() {
     // owned value through the single-use path: cannot be produced here
     case!("o_tok.some", NmMock::o_tok.some_call(matching!()).returns(t(1)), |u| format!("L{}", u.o_tok().0));
     case!("o_tok.next", NmMock::o_tok.next_call(matching!()).returns(t(1)), |u| format!("L{}", u.o_tok().0));
+    case!("o_tok.some.once-then", NmMock::o_tok.some_call(matching!()).returns(t(1)).once().then().returns(t(2)), |u| format!("L{}", u.o_tok().0));
     // the repeatable path clones: no slot needed
     case!("o_tok.each", NmMock::o_tok.each_call(matching!()).returns(t(1)), |u| format!("L{}", u.o_tok().0));
     case!("o_tok.n2", NmMock::o_tok.some_call(matching!()).returns(t(1)).n_times(2), |u| format!("L{}", u.o_tok().0));
